@@ -374,7 +374,29 @@ class SInt:
         if isc(o) and o < 0:
             return neg_result
         if isinstance(o, float):
-            raise Unsupported('SInt compared with float')
+            if o != o or o in (float('inf'), float('-inf')):
+                raise Unsupported('SInt compared with nan / inf')
+            if o.is_integer():
+                o = int(o)
+                if o < 0:
+                    return neg_result
+            else:
+                import math
+                # x ? o for an integer x and a non-integral o
+                probe = f(z3.BitVecVal(0, 8), z3.BitVecVal(1, 8))
+                kind = z3.simplify(probe)
+                lt_like = z3.is_true(kind)          # ULT / ULE give True for 0 ? 1
+                eq_like = z3.is_false(z3.simplify(f(z3.BitVecVal(1, 8), z3.BitVecVal(1, 8)))) is False and not lt_like
+                if o < 0:
+                    return neg_result
+                if lt_like:       # x < o  <=> x <= floor(o);  x <= o <=> x <= floor(o)
+                    return self._cmp(math.floor(o), z3.ULE, False, True)
+                ge_like = z3.is_true(z3.simplify(f(z3.BitVecVal(1, 8), z3.BitVecVal(0, 8)))) and not z3.is_true(z3.simplify(f(z3.BitVecVal(0, 8), z3.BitVecVal(0, 8)))) or \
+                    z3.is_true(z3.simplify(f(z3.BitVecVal(1, 8), z3.BitVecVal(0, 8)))) and z3.is_true(z3.simplify(f(z3.BitVecVal(0, 8), z3.BitVecVal(0, 8)))) and not z3.is_true(z3.simplify(f(z3.BitVecVal(0, 8), z3.BitVecVal(1, 8))))
+                if ge_like:       # x > o / x >= o  <=> x >= ceil(o)
+                    return self._cmp(math.ceil(o), z3.UGE, True, False)
+                # equality with a non-integral number
+                return z3.is_true(z3.simplify(f(z3.BitVecVal(0, 8), z3.BitVecVal(1, 8))))
         if not isinstance(o, (int, SInt, SBool)):
             return NotImplemented
         if isc(o) and o >= (1 << self.width()) and big_result is not None:
